@@ -43,6 +43,9 @@ C["C10"] = dict(
 C["C12"] = dict(
   text="Lean 4 theorems over a byte-level model of the tracker client: for all transaction/connection ids, infohashes, peer ids and ports the connect request is 16 bytes (magic, action 0, tid) and the announce request 98 bytes with the connection id, action 1, tid, the infohash at 16..36, a non-zero left at 64..72 and the port at 96..98 (big-endian round trip ofBE (toBE k n) = n mod 256^k); at most three sends per request under every drop pattern; a reply is used iff long enough and echoing action and transaction id (accept_iff), otherwise a failure; the peer list is exactly the fixed-size records of the accepted reply or rejected when ragged; everything printed comes from an accepted reply, once; exit status 1 iff no tracker usable; non-UDP/port-less URLs skipped. Magic, lengths, retry count, strides, field values and the serialisation field order are extracted from the source each run (decide-theorems break when they change). Correspondence: loopback tracker simulator recording every datagram, scripted replies (every field perturbed, truncations, error action, ragged/duplicate lists, IPv4/IPv6, 0-3 drops per phase), real `imdl torrent announce`.",
   note="Trusted: Lean kernel; socket/timeouts/delivery are runtime (partial); sampled scenarios tie the model to the code.")
+C["C19"] = dict(
+  text="Lean 4 theorems over the dispatch model of `imdl completions` with the script text an arbitrary function of the shell: for each supported shell `--dir D --shell S` writes exactly one file, named by the (source-extracted, proved documented) table, holding exactly what `--shell S` prints; `--dir D` alone writes all five files under five distinct names; shell given twice or neither shell nor directory is a usage error. The finite configuration space (5 shells x flag/short/positional/both/none/unknown x dir forms) is enumerated completely on the real binary every run with a sandbox snapshot (byte identity of stdout and files, nothing else written, scripts name every subcommand scraped from --help).",
+  note="Trusted: Lean kernel; clap generators opaque; exhaustive enumeration ties the dispatch model to the code.")
 
 
 def main():
